@@ -56,6 +56,7 @@ def main():
     jobs, nd, meta = [], {}, {}
     units = set()
     tid = 0
+    somepts = rng.sample(allpts, 2500) if thorough else None       # thorough: the variant decks probe a sample of the grid
     for r in recs:
         facets = list(range(0, r['nfacets'] + 1))
         if not thorough and len(facets) > 4:
@@ -85,7 +86,7 @@ def main():
                     tid += 1
                     dn = adeck.normalise({'surfs': [dict(r['card'], n=1)],
                                           'cells': [{'n': 1, 'geom': geom1}, {'n': 2, 'geom': ['C', 1]}]})
-                    dn['pts'] = d['pts']
+                    dn['pts'] = somepts or d['pts']
                     nd[tid] = dn
                     meta[tid] = (r, k)
                     jobs.append({'tid': tid, 'deck': dn, 'opts': []})
@@ -96,7 +97,7 @@ def main():
                 du = adeck.normalise({'surfs': [dict(r['card'], n=1), {'n': 8, 'k': 'so', 'p': [30]}, {'n': 9, 'k': 's', 'p': [6, 6, 6, 2]}],
                                       'cells': [{'n': 1, 'geom': [':', ['*', ['S', 1, k], ['S', -8, 0]], ['S', -9, 0]]},
                                                 {'n': 2, 'geom': ['C', 1]}]})
-                du['pts'] = d['pts']
+                du['pts'] = somepts or d['pts']
                 nd[tid] = du
                 meta[tid] = (r, k)
                 jobs.append({'tid': tid, 'deck': du, 'opts': []})
@@ -117,26 +118,28 @@ def main():
                 jobs.append({'tid': tid, 'deck': d2, 'opts': []})
             if k in (0, 1) or thorough:
                 # another unit of length: the text in units of 1e-3 / 400 (thin foils, large halls), TLC keeps the exact card
-                res = adeck.unit_change(d, [0.001, 400.0][tid % 2])
+                ds = dict(d, pts=somepts) if somepts else d
+                res = adeck.unit_change(ds, [0.001, 400.0][tid % 2])
                 if res is not None:
                     tid += 1
-                    nd[tid] = d
+                    nd[tid] = ds
                     meta[tid] = (r, k)
                     units.add(tid)
-                    jobs.append({'tid': tid, 'deck': d, 'opts': [], 'text': adeck.concretise(res[0]), 'real_points': res[1]})
+                    jobs.append({'tid': tid, 'deck': ds, 'opts': [], 'text': adeck.concretise(res[0]), 'real_points': res[1]})
             if r['card']['k'] in ('arb', 'box', 'wed', 'rpp') and (k in (0, 1, 2) or thorough):
                 # a foil: the body squeezed to a thousandth of its size along one axis, away from the origin (bodies
                 # given by vertices and edge vectors are affine images of themselves; the sense of a point follows)
                 A = [[0.0005, 0, 0], [0, 1, 0], [0, 0, 1]] if tid % 2 else [[1, 0, 0], [0, 1, 0], [0, 0, 0.0004]]
                 bvec = [5.0, 0.0, 0.0] if tid % 2 else [0.0, -1.0, 7.0]
-                mv = adeck.affine_world(d, A, bvec)
+                ds = dict(d, pts=somepts) if somepts else d
+                mv = adeck.affine_world(ds, A, bvec)
                 if mv is not None:
                     tid += 1
-                    nd[tid] = d
+                    nd[tid] = ds
                     meta[tid] = (r, k)
                     units.add(tid)
-                    jobs.append({'tid': tid, 'deck': d, 'opts': [], 'text': adeck.concretise(mv),
-                                 'real_points': adeck.affine_points(d['pts'], A, bvec)})
+                    jobs.append({'tid': tid, 'deck': ds, 'opts': [], 'text': adeck.concretise(mv),
+                                 'real_points': adeck.affine_points(ds['pts'], A, bvec)})
             if k == 0 or thorough:
                 # covariance: the same deck under a general rigid motion
                 tid += 1
